@@ -40,6 +40,10 @@ func drain(n nexter) ([]Blk, error) {
 	for {
 		b, err := n.Next()
 		if err != nil {
+			// a caller that logs the error and asks again: two more calls, which may fail or end but not crash
+			// (a panic here escapes to the family's crash handling with the case recorded)
+			n.Next()
+			n.Next()
 			return out, err
 		}
 		out = append(out, Blk{b.Cid(), b.RawData()})
